@@ -59,6 +59,8 @@ func main() {
 	manifest := flag.Bool("manifest", false, "print MANIFEST.json for the registered properties")
 	knownShapes := flag.Bool("known-shapes", false, "developer tool: print function signatures and struct fields (for spec/known_shapes.json)")
 	knownFuncs := flag.Bool("known-funcs", false, "developer tool: print the list of module functions (for spec/known_funcs.json)")
+	mutall := flag.String("mutall", "", "developer tool: directory receiving the expression-level mutants that no property reports")
+	mutonly := flag.String("mutonly", "", "with -mutall: only files whose path contains this string")
 	sweepall := flag.Bool("sweepall", false, "developer tool: neutralise every statement once and list which properties detect it")
 	recipes := flag.Bool("recipes", false, "debug: print everything the spec tables are compared with")
 	flag.Parse()
@@ -114,6 +116,10 @@ func main() {
 	}
 	if *sweepall {
 		sweepAll(*repo)
+		return
+	}
+	if *mutall != "" {
+		mutAll(*repo, *mutall, *mutonly)
 		return
 	}
 	if *recipes {
